@@ -7,6 +7,8 @@ package main
 // Sibling names are chosen so that byte order differs from locale / case-insensitive / whole-path order.
 
 import (
+	"bytes"
+	"context"
 	"fmt"
 	"io"
 	"math/rand"
@@ -238,6 +240,13 @@ func implLfsRead(line string) string {
 	}
 	return guard(func() string {
 		fs := desync.NewLocalFS(root, desync.LocalFSOptions{NoTime: a["nt"] == "1", OneFileSystem: a["ofs"] == "1"})
+		if a["tar"] == "1" { // end to end: the archive Tar writes from this directory
+			var buf bytes.Buffer
+			if err := desync.Tar(context.Background(), &buf, fs); err != nil {
+				return "err"
+			}
+			return "ok tar=" + hx(buf.Bytes())
+		}
 		var recs []string
 		for {
 			f, err := fs.Next()
@@ -520,7 +529,7 @@ func shrinkLfsRead(line string) []string {
 			b[k] = v
 		}
 		b["fs"] = strings.Join(keep, ";")
-		out = append(out, buildCase("lfs.read", b, "top", "root", "nt", "ofs", "mnt", "fs"))
+		out = append(out, buildCase("lfs.read", b, "top", "root", "nt", "ofs", "mnt", "fs", "tar"))
 		if len(out) >= 40 {
 			break
 		}
@@ -622,6 +631,10 @@ func lfsReadCases(cfg Config, rep *Report, m *Model, rng *rand.Rand, n int) {
 			}
 		}
 		rep.Compare(m, line, implLfsRead, shrinkLfsRead)
+		if it%3 == 0 { // the same tree end to end: Tar(LocalFS) bytes against tarStream of the model's record stream
+			rep.Compare(m, line+" tar=1", implLfsRead, shrinkLfsRead)
+			rep.Count(line+" tar=1", len(ents) >= 6, "lfsread:tar-from-disk")
+		}
 		tags := []string{"lfsread:tree", "lfsread:entries:" + bucket(len(ents))}
 		if rel {
 			tags = append(tags, "lfsread:relative-root")
